@@ -104,6 +104,13 @@ def check_roundtrip(fd, via='file'):
             mid.charset = cs
         else:
             mid = mido.MidiFile(type=mid.type, ticks_per_beat=mid.ticks_per_beat, charset=cs, tracks=mid.tracks)
+    # history: the same texts were written under another charset earlier in this process (round 13: an lru_cache on
+    # encode_string keyed on the text alone); whether that earlier save works is not this check's business
+    try:
+        save_bytes(mido.MidiFile(type=mid.type, ticks_per_beat=mid.ticks_per_beat, tracks=mid.tracks,
+                                 charset='utf-8' if cs == 'utf-16-le' else 'utf-16-le'))
+    except Exception:  # noqa: BLE001
+        pass
     if via == 'filename':
         # the same through real files: save(filename) / MidiFile(filename); the path first holds the remains of a failed
         # save of a longer file, which must not show through
@@ -153,6 +160,15 @@ def check_roundtrip(fd, via='file'):
                 other.tracks[0].append(mido.Message('note_on'))
         except Exception as exc:  # noqa: BLE001
             return [fail('load-raises', f'saved file does not load: {exc!r}', exc=exc_sig(exc))]
+        # a saved file holds no data byte above 127, so loading it with clip=True changes nothing (round 13: clipping
+        # applied to the framing bytes of a sysex event)
+        try:
+            clipped = mido.MidiFile(file=io.BytesIO(b), clip=True, **({} if cs is None else {'charset': cs}))
+            why = _tracks_equal(clipped.tracks, back.tracks)
+            if why:
+                out.append(fail('clip-changes-valid-file', f'clip=True against the plain load: {why}'[:700]))
+        except Exception as exc:  # noqa: BLE001
+            out.append(fail('load-raises', f'saved file does not load with clip=True: {exc!r}', exc=exc_sig(exc)))
     if back.type != fd['type'] or back.ticks_per_beat != fd['tpb']:
         out.append(fail('header', f'type/tpb {back.type}/{back.ticks_per_beat} != {fd["type"]}/{fd["tpb"]}'))
     out += compare_tracks(back.tracks, fd['tracks'], 'reload')
